@@ -158,3 +158,179 @@ _reg_n1 = register
 def register(op):  # noqa: F811
     _reg_n1(op)
     register2(op)
+
+
+STD_SRC = '''
+import sys
+def func(a, b=2, *args, k=3, **kw):
+    c = a + b
+    for i in range(c):
+        if i % 2:
+            continue
+        c += i
+    try:
+        return c / k
+    except ZeroDivisionError:
+        return None
+    finally:
+        a = None
+def closure(n):
+    def inner(x):
+        return x + n
+    return inner
+class Klass:
+    attr = 1
+    def method(self, q):
+        return [q * i for i in range(3)], self.attr
+    @staticmethod
+    def smeth():
+        return 5
+def outer3(a):
+    b = a
+    def mid(c):
+        d = c + b
+        def inner(e):
+            return e + d + b + a + c
+        return inner
+    return mid
+def gen(n):
+    for i in range(n):
+        yield i
+async def coro(x):
+    return await x
+'''
+
+
+def _jt313(co):
+    """3.13's dis also flags the start/end offsets of exception ranges; the property (C04) defines
+    is_jump_target as: a jump target or an exception-handler target"""
+    import dis
+    s = set(dis.findlabels(co.co_code))
+    for e in dis._parse_exception_table(co):
+        s.add(e.target)
+    return s
+
+
+def _instr_view(i, host_dis):
+    av = i.argval
+    if hasattr(av, "co_code"):
+        av = "<code %s>" % av.co_name
+    elif not isinstance(av, (int, str, type(None))):
+        av = repr(av)
+    sl = i.starts_line
+    if host_dis and sys.version_info >= (3, 13):
+        sl = i.line_number if i.starts_line else None
+    return [i.opcode, i.opname, i.arg, i.offset, bool(i.is_jump_target), sl, av]
+
+
+def register3(op):
+    @op
+    def std_vs_dis(a):
+        """xdis.std against this host's dis on the objects dis accepts"""
+        import dis
+        import xdis.std as S
+        glb = {}
+        exec(compile(STD_SRC, "std_src.py", "exec"), glb)
+        g = glb["gen"](3)
+        objs = {"function": glb["func"], "closure": glb["closure"](1), "method": glb["Klass"]().method, "staticmethod": glb["Klass"].smeth,
+                "generator": g, "code": glb["func"].__code__, "source": "x = 1\ny = [i for i in range(x)]\n", "lambda": (lambda z: z + 1), "mid3": glb["outer3"](1), "inner3": glb["outer3"](1)(2),
+                "inner_code": glb["closure"].__code__.co_consts[1] if hasattr(glb["closure"].__code__.co_consts[1], "co_code") else glb["func"].__code__}
+        try:
+            c = glb["coro"](None)
+            objs["coroutine"] = c
+        except Exception:
+            c = None
+        cmp_map = {"not-in": "not in", "is-not": "is not", "exception-match": "exception match"}
+        diffs = []
+        n = 0
+        for name, x in objs.items():
+            for fl in a.get("first_lines", [None, 1, 1000]):
+                n += 1
+                try:
+                    want = [_instr_view(i, True) for i in dis.get_instructions(x, first_line=fl) if i.opname != "CACHE"]
+                    if sys.version_info >= (3, 11):
+                        # dis's own functions disagree with each other here (3.11/3.12: get_instructions omits
+                        # handler targets, Bytecode includes them; 3.13 adds range boundaries): C04's definition rules
+                        jt = _jt313(dis._get_code_object(x))
+                        for r in want:
+                            r[4] = r[3] in jt
+                except Exception as e:  # noqa
+                    want = "exc:" + type(e).__name__
+                try:
+                    got = [_instr_view(i, False) for i in S.get_instructions(x, first_line=fl) if i.opname != "CACHE"]
+                    for r in got:
+                        if isinstance(r[6], str):
+                            r[6] = cmp_map.get(r[6], r[6])
+                except Exception as e:  # noqa
+                    got = "exc:" + type(e).__name__ + ":" + str(e)[:60]
+                if isinstance(want, list) and isinstance(got, list):
+                    # argval: compare for table-indexed and jump operands; constants by repr
+                    for k, (gi, wi) in enumerate(zip(got, want)):
+                        if gi[:6] != wi[:6] or (gi[6] != wi[6] and not (isinstance(wi[6], str) and wi[6].startswith("<code"))):
+                            diffs.append(["get_instructions", name, fl, k, gi, wi])
+                            break
+                    else:
+                        if len(got) != len(want):
+                            diffs.append(["get_instructions-length", name, fl, len(got), len(want), ""])
+                elif got != want and not (isinstance(got, str) and isinstance(want, str) and got.split(":")[1] == want.split(":")[1]):
+                    diffs.append(["get_instructions", name, fl, "", str(got)[:100], str(want)[:100]])
+            # Bytecode iteration
+            try:
+                want = [_instr_view(i, True)[:5] + [_instr_view(i, True)[6]] for i in dis.Bytecode(x) if i.opname != "CACHE"]
+                want = [r if not (isinstance(r[5], str) and (r[5].startswith("<code") or r[5].startswith("("))) else r[:5] + [None] for r in want]
+                if sys.version_info >= (3, 11):
+                    jt = _jt313(dis._get_code_object(x))
+                    for r in want:
+                        r[4] = r[3] in jt
+                got = [_instr_view(i, False)[:5] + [cmp_map.get(_instr_view(i, False)[6], _instr_view(i, False)[6]) if isinstance(_instr_view(i, False)[6], str) else _instr_view(i, False)[6]]
+                       for i in S.Bytecode(x) if i.opname != "CACHE"]
+                got = [g if w[5] is not None or g[5] is None else g[:5] + [None] for g, w in zip(got, want)] + got[len(want):]
+                if got != want:
+                    diffs.append(["Bytecode", name, None, "", str(got)[:100], str(want)[:100]])
+            except Exception as e:  # noqa
+                diffs.append(["Bytecode-exc", name, None, "", type(e).__name__ + ":" + str(e)[:80], ""])
+        co = glb["func"].__code__
+        for fn in ("findlabels",):
+            w_, g_ = sorted(dis.findlabels(co.co_code)), sorted(S.findlabels(co.co_code))
+            if w_ != g_:
+                diffs.append(["findlabels", "code", None, "", g_, w_])
+        w_ = [list(p) for p in dis.findlinestarts(co)]
+        g_ = [list(p) for p in S.findlinestarts(co)]
+        if w_ != g_:
+            diffs.append(["findlinestarts", "code", None, "", g_[:6], w_[:6]])
+        for tname in ("opmap", "opname", "hasconst", "hasname", "EXTENDED_ARG", "HAVE_ARGUMENT"):
+            w_, g_ = getattr(dis, tname), getattr(S, tname)
+            if tname == "opmap":
+                w_ = {k.replace("+", "_"): v for k, v in w_.items()}
+                g_ = {k: v for k, v in g_.items()}
+            if tname == "opname":
+                w_, g_ = list(w_)[:256], [x for x in list(g_)[:256]]
+            if tname in ("hasconst", "hasname"):
+                w_, g_ = sorted(w_), sorted(g_)
+            if w_ != g_:
+                diffs.append(["table:" + tname, "", None, "", str(g_)[:120], str(w_)[:120]])
+        # rejected objects
+        for bad in (42, None, [1]):
+            try:
+                list(dis.get_instructions(bad))
+                w_ = "ok"
+            except Exception as e:  # noqa
+                w_ = type(e).__name__
+            try:
+                list(S.get_instructions(bad))
+                g_ = "ok"
+            except Exception as e:  # noqa
+                g_ = type(e).__name__
+            if w_ != g_:
+                diffs.append(["reject", repr(bad), None, "", g_, w_])
+        if c is not None:
+            c.close()
+        return {"host": list(sys.version_info[:3]), "checked": n, "diffs": diffs[:30]}
+
+
+_reg_n2 = register
+
+
+def register(op):  # noqa: F811
+    _reg_n2(op)
+    register3(op)
